@@ -738,6 +738,33 @@ func c07Wiring(p *Program, r *Report) {
 		pos = gos[0].Pos()
 	}
 	r.Check(ok, "Start spawns the guardian goroutine", pos, "Start contains exactly one go statement; its function blocks on Context.Done() and then, on every path, calls the stop routine")
+	// ... and only once the start chain has completed successfully: the stop routine reads what the chain writes (root
+	// context, cancel function); a guardian that can run stop() while the chain is still building the tree marks the system
+	// stopped, finds no root to kill, and the chain then brings up actors nobody will ever stop.
+	if len(gos) == 1 && gos[0].Parent() == s.Start {
+		sg := p.ig(s.Start)
+		runs := nodesWhere(sg, func(in ssa.Instruction) bool {
+			c := callOf(in)
+			return c != nil && c.StaticCallee() != nil && c.StaticCallee().Name() == "Run" && strings.HasSuffix(fnPkg(c.StaticCallee()).Path(), "/chain")
+		})
+		okE := map[edge]bool{}
+		for rn := range runs {
+			rv, _ := sg.Nodes[rn].(ssa.Value)
+			for _, ifi := range sg.ifs() {
+				for _, outcome := range []bool{true, false} {
+					f, okf := condFact(ifi.Cond, outcome)
+					if okf && f.IsNil && f.Op == token.EQL && strip(f.X) == rv {
+						okE[sg.branchEdge(ifi, outcome)] = true
+					}
+				}
+			}
+		}
+		gn := sg.Idx[gos[0]]
+		r.Check(len(runs) > 0 && len(okE) > 0 && sg.DominatedByEdges(gn, okE), "guardian armed only after a successful start", gos[0].Pos(),
+			"the go statement is dominated by the err==nil edge of the start chain's Run(): stop() never runs concurrently with, or ahead of, the construction of the actor tree")
+	} else if len(gos) == 1 {
+		r.Undecided("guardian armed only after a successful start", gos[0].Pos(), "the guardian's go statement is not in Start's own body")
+	}
 }
 
 func c07GuardSignal(p *Program, r *Report) {
@@ -820,7 +847,22 @@ func c07GuardSignal(p *Program, r *Report) {
 				"the stop signal is closed only on the edge where the handled OnKilled's Ref equals the guard's own ref (the root has terminated)")
 		}
 	}
-	if n == 0 {
+	// the signal is announced by close (every present and future receiver is released, nobody blocks), never by a send:
+	// a send blocks its sender forever once Stop has given up waiting (timeout), leaking the root's mailbox goroutine
+	sends := 0
+	for _, fn := range p.Mod {
+		for _, b := range fn.Blocks {
+			for _, in := range b.Instrs {
+				if sd, ok := in.(*ssa.Send); ok {
+					if f, _ := fieldLoad(sd.Chan); sinks[f] {
+						sends++
+						r.Violate("send on the stop signal in "+fnName(fn), sd.Pos(), "the stop signal is sent instead of closed: the sender blocks forever when no Stop call is waiting any more (Stop timed out), and a second waiter is never released")
+					}
+				}
+			}
+		}
+	}
+	if n == 0 && sends == 0 {
 		r.Unresolved("no close of the stop signal found")
 	}
 }
